@@ -14,6 +14,7 @@ import (
 
 	commonmodels "github.com/lindb/common/models"
 	"github.com/lindb/common/pkg/encoding"
+	"github.com/lindb/roaring"
 
 	"github.com/lindb/lindb/aggregation"
 	"github.com/lindb/lindb/aggregation/function"
@@ -195,6 +196,29 @@ func wireCopy(s *stmt.Query) (*stmt.Query, error) {
 type metaDB struct {
 	index.MetricMetaDatabase
 	schema *metric.Schema // nil: metric unknown on this node
+	// the node's tag value dictionary: tag key id -> tag value id -> value (what the leaf's
+	// collectGroupByTagValues asks for); failKey != 0: the lookup for that tag key id fails
+	dict    func(keyID tag.KeyID) map[uint32]string
+	failKey tag.KeyID
+}
+
+// CollectTagValues as index.metricMetaDatabase does: fills tagValues for the ids it knows.
+func (m *metaDB) CollectTagValues(keyID tag.KeyID, ids *roaring.Bitmap, tagValues map[uint32]string) error {
+	if m.failKey != 0 && keyID == m.failKey {
+		return fmt.Errorf("collect tag values of key %d: dictionary unavailable", keyID)
+	}
+	if m.dict == nil {
+		return nil
+	}
+	d := m.dict(keyID)
+	it := ids.Iterator()
+	for it.HasNext() {
+		id := it.Next()
+		if v, ok := d[id]; ok {
+			tagValues[id] = v
+		}
+	}
+	return nil
 }
 
 func (m *metaDB) GetMetricID(_, name string) (metric.ID, error) {
@@ -334,7 +358,8 @@ func RunLeafPlan(w *World, q *QueryDef, leaf *LeafDef, receivers []string) ([]*p
 			schema.TagKeys = append(schema.TagKeys, tag.Meta{Key: k, ID: tag.KeyID(10 + i)})
 		}
 	}
-	db := &stubDB{meta: &metaDB{schema: schema}}
+	mdb := &metaDB{schema: schema}
+	db := &stubDB{meta: mdb}
 	fct := &capFactory{streams: map[string]*capStream{}}
 	taskCtx := flow.NewTaskContextWithTimeout(context.Background(), leafTimeout)
 	req := &protoCommonV1.TaskRequest{RequestID: "r1", RequestType: protoCommonV1.RequestType_Data}
@@ -391,6 +416,15 @@ func RunLeafPlan(w *World, q *QueryDef, leaf *LeafDef, receivers []string) ([]*p
 		fieldIdx[string(fm.Name)] = i
 	}
 	grouped := false
+	// the node's dictionary, as the real collectGroupByTagValues reads it through MetaDB().CollectTagValues
+	mdb.dict = func(keyID tag.KeyID) map[uint32]string {
+		for gi, g := range q.GroupBy {
+			if tag.KeyID(10+g) == keyID {
+				return rev[gi]
+			}
+		}
+		return nil
+	}
 	// what storage hands to the down-sampling of one series: field index -> slot -> value. A series
 	// takes part in the query on this node iff it has a point of a selected field in the family
 	// (possibly outside the queried slot range: then its aggregator exists but stays empty).
@@ -425,8 +459,22 @@ func RunLeafPlan(w *World, q *QueryDef, leaf *LeafDef, receivers []string) ([]*p
 					shard = append(shard, si)
 				}
 			}
+			// the leaf pipeline's grouping tasks, as query/stage does: every local shard's scan stage
+			// forks one when it is created and completes it when it is done (also when the shard holds
+			// nothing); a shard with series forks a grouping stage before the scan stage completes.
+			// The LAST completion runs the real collectGroupByTagValues against the node's dictionary.
+			if pass == 1 {
+				lctx.GroupingCtx.ForkGroupingTask()
+			}
 			if len(shard) == 0 {
+				if pass == 1 {
+					lctx.GroupingCtx.CompleteGroupingTask()
+				}
 				continue // storage finds no series of the metric in this shard
+			}
+			if pass == 1 {
+				lctx.GroupingCtx.ForkGroupingTask()   // NewGroupingStage
+				lctx.GroupingCtx.CompleteGroupingTask() // shardScanStage.Complete
 			}
 			shardCtx := flow.NewShardExecuteContext(sctx)
 			dl := &flow.DataLoadContext{ShardExecuteCtx: shardCtx, IsMultiField: len(sctx.Fields) > 1, IsGrouping: st.HasGroupBy()}
@@ -456,6 +504,11 @@ func RunLeafPlan(w *World, q *QueryDef, leaf *LeafDef, receivers []string) ([]*p
 					dl.GroupingSeriesAggRefs[li] = idx
 				}
 			}
+			if pass == 1 {
+				// groupingStage.Complete: the groups of this shard are built (their tag value ids
+				// collected); the data load stages that follow fork no grouping task
+				lctx.GroupingCtx.CompleteGroupingTask()
+			}
 			for li, si := range shard {
 				// per series, per field: one GetAggregator(familyTime) + DownSampling, as dataLoad.Execute does
 				perField := seriesData(si)
@@ -481,9 +534,7 @@ func RunLeafPlan(w *World, q *QueryDef, leaf *LeafDef, receivers []string) ([]*p
 			}
 		}
 	}
-	if st.HasGroupBy() && grouped {
-		lctx.GroupingCtx.VerifSetGroupingTagValues(rev)
-	}
+	_ = grouped
 	t0 := time.Now()
 	lctx.SendResponse(nil)
 	noteLeafWait(leaf.Name, time.Since(t0), leafTimeout, fmt.Sprintf("level 1, group by %v, %d shards of the leaf with data (grouped=%v)", q.GroupBy, len(leaf.Shards), grouped))
